@@ -861,6 +861,11 @@ Definition int_vars (AF : list (fkind * fdef)) : list ident :=
 (* level <= 5, or the condition *)
 Definition at6 (lv : nat) (b : bool) : bool := Nat.leb lv 5 || b.
 
+(* an element of an array literal / a field of a record: int_shaped (a new int cell), or an int var in scope — its
+   cell is SHARED with the array / record (a write through a[i] is a write to x) *)
+Definition elem_ok (AF : list (fkind * fdef)) (sc : list ident) (e : expr) : bool :=
+  int_shaped e || match e with EVar x => mem_id x sc && mem_id x (int_vars AF) | _ => false end.
+
 Definition run_ok (FS : fsigs) (TL : list ident) (AF : list (fkind * fdef)) (self : option ident) (cpok : bool) (sc : list ident) (fds : list fdef) : bool :=
   let names := map fd_name fds in
   nodup_ids names &&
@@ -916,11 +921,11 @@ Fixpoint in_F (FS : fsigs) (TL : list ident) (AF : list (fkind * fdef)) (self : 
   | EField a _ _ => Nat.leb 8 lv && in_F FS TL AF self lv sc a
   | ERecNil _ => Nat.leb 8 lv
   | ERecNew _ es =>                    (* level 8: R(e1, …, en), every field int_shaped *)
-      Nat.leb 8 lv && forallb int_shaped es &&
+      Nat.leb 8 lv && forallb (elem_ok AF sc) es &&
       (fix all (l : list expr) : bool :=
          match l with [] => true | a :: t => in_F FS TL AF self lv sc a && all t end) es
   | EArrLit es _ =>                    (* level 7: [e1, …, en] : int, n >= 1, every element int_shaped *)
-      Nat.leb 7 lv && match es with [] => false | _ => true end && forallb int_shaped es &&
+      Nat.leb 7 lv && match es with [] => false | _ => true end && forallb (elem_ok AF sc) es &&
       (fix all (l : list expr) : bool :=
          match l with [] => true | a :: t => in_F FS TL AF self lv sc a && all t end) es
                  (* at level 6 only to a name bound by var x = <int_shaped>: Src/Eval.v is untyped, an assignment
